@@ -236,6 +236,8 @@ def generate(seed, tier):
                 ops.append("brk %s %s" % (o, " ".join(map(str, bs))))
             elif u < 0.8:
                 ops.append("setp %s p%d_%d %s" % (o, rng.randrange(n), rng.randrange(n), h(rng.choice([-0.25, 0.25]))))
+            elif u < 0.9:
+                ops.append("post r")
             else:
                 ops.append("ll %s" % o)
         cases.append(["case bad%d n=%d T=%d" % (i, n, T)] + ops)
